@@ -21,6 +21,8 @@ import hashlib
 import importlib
 import json
 import os
+import resource
+import signal
 import subprocess
 import sys
 import tempfile
@@ -33,6 +35,32 @@ REPO = os.path.abspath(os.environ.get('VERIF_REPO', '/repo'))
 REPO_SRC = os.path.join(REPO, 'src')
 KNOWN_FINDINGS = os.path.join(VERIF_DIR, 'known_findings.txt')
 MAX_ROOT_CAUSES = 6  # per clause: how often the search is continued behind a recorded failure
+
+
+CASE_TIMEOUT_S = 300  # one check call (a compile-based case may legitimately take a minute)
+MEM_LIMIT_GB = 8
+
+
+class CaseTimeout(BaseException):
+    """Raised by the per-case watchdog (SIGALRM)."""
+
+
+def _on_alarm(_sig, _frame):
+    raise CaseTimeout()
+
+
+def limit_memory():
+    """Soft address-space limit for this interpreter (and the Python workers it starts), so that a
+    runaway loop in changed code under test ends in MemoryError instead of exhausting the sandbox.
+    Compilers and sanitizer-instrumented binaries lift it again (lift_limits)."""
+    _soft, hard = resource.getrlimit(resource.RLIMIT_AS)
+    resource.setrlimit(resource.RLIMIT_AS, (MEM_LIMIT_GB * 1024 ** 3, hard))
+
+
+def lift_limits():
+    """preexec_fn for child processes that need the full address space (TSan/ASan, g++)."""
+    _soft, hard = resource.getrlimit(resource.RLIMIT_AS)
+    resource.setrlimit(resource.RLIMIT_AS, (hard, hard))
 
 
 class Fail(Exception):
@@ -235,10 +263,15 @@ class Ctx:
         raised outside the except block so that it carries no __context__ (Hypothesis keys
         failures on the origin of the exception including its context)."""
         err = None
+        signal.setitimer(signal.ITIMER_REAL, CASE_TIMEOUT_S)
         try:
             check(case)
         except Fail:
             raise
+        except CaseTimeout:
+            err = Fail(f'no result within {CASE_TIMEOUT_S} s (hang)', 'hang')
+        except MemoryError:
+            err = Fail(f'MemoryError under the {MEM_LIMIT_GB} GB address-space limit', 'memory')
         except RecursionError as exc:  # the traceback is useless but dznpy is on it
             if not dznpy_frame(exc):
                 raise
@@ -248,6 +281,8 @@ class Ctx:
                 raise
             tb = ''.join(traceback.format_exception(type(exc), exc, exc.__traceback__)[-6:])
             err = Fail(f'unexpected {type(exc).__name__}: {exc}\n{tb}', exc_sig(exc))
+        finally:
+            signal.setitimer(signal.ITIMER_REAL, 0)
         if err is not None:
             raise err
 
@@ -294,6 +329,8 @@ def ensure_environment():
         env['PYTHONDONTWRITEBYTECODE'] = '1'
         env['PYTHONPATH'] = want_path
         os.execve(sys.executable, [sys.executable, '-m', 'vf'] + sys.argv[1:], env)
+    limit_memory()
+    signal.signal(signal.SIGALRM, _on_alarm)
     import dznpy
     if not os.path.abspath(dznpy.__file__).startswith(REPO_SRC + os.sep):
         raise HarnessError(f'dznpy imported from {dznpy.__file__}, expected below {REPO_SRC}')
